@@ -4,15 +4,20 @@ package c20
 
 import (
 	"fmt"
+	"os"
 	"sort"
 
 	"pgregory.net/rapid"
 
+	"verifharness/pt"
 	"verifharness/sut"
 )
 
-func genAlertStoreOp(t *rapid.T, names []string) storeOp {
-	k := rapid.IntRange(0, 99).Draw(t, "alertOp")
+func genAlertStoreOp(t *rapid.T, names []string, early bool) storeOp {
+	k := pct(t, "alertOp")
+	if early {
+		k = rapid.SampledFrom([]int{0, 40, 40}).Draw(t, "earlyOp") // contact.create | alert.create
+	}
 	ref := rapid.IntRange(0, 9).Draw(t, "ref")
 	switch {
 	case k < 18:
@@ -35,8 +40,8 @@ var labelNames = []string{"env", "team", "Env", "sev"}
 func genAlertFields(t *rapid.T, op storeOp) storeOp {
 	op.F = map[string]string{
 		"message":   rapid.SampledFrom(textVals).Draw(t, "message"),
-		"queryText": rapid.SampledFrom([]string{"* | stats count", "* | stats sum(v) as s", "level=error | stats count by host", "* | stats avg(latency) as \"ü 名\""}).Draw(t, "query"),
-		"index":     rapid.SampledFrom([]string{"c20b", "*", "ia"}).Draw(t, "index"),
+		"queryText": rapid.SampledFrom([]string{"* | stats count", "* | stats sum(v) as s", "level=error | stats count by host", "* | stats avg(v) as \"ü 名\""}).Draw(t, "query"),
+		"index":     rapid.SampledFrom([]string{"c20b", "*"}).Draw(t, "index"),
 		"startTime": rapid.SampledFrom([]string{"now-5m", "now-1h", "1700000000000"}).Draw(t, "start"),
 		"cond":      fmt.Sprint(rapid.IntRange(0, 4).Draw(t, "cond")),
 		"value":     rapid.SampledFrom([]string{"0", "1", "10.5", "-3", "100000"}).Draw(t, "value"),
@@ -79,17 +84,21 @@ type alertStore struct {
 	contactIDs []objRef
 	alertIDs   []objRef
 	prepared   map[int64]bool
+	labelVals  map[string]map[string]bool // label name → values written by any alert create/update of the case
+	knownNoted bool
 }
 
 func newAlertStore() *alertStore {
-	return &alertStore{contacts: map[string]*contactModel{}, alerts: map[string]*alertStoreModel{}, prepared: map[int64]bool{}}
+	return &alertStore{contacts: map[string]*contactModel{}, alerts: map[string]*alertStoreModel{}, prepared: map[int64]bool{},
+		labelVals: map[string]map[string]bool{}}
 }
 
 func (s *alertStore) restarted(d *storeDriver) {}
 
 func contactBody(op *storeOp, id string) (map[string]interface{}, *contactModel) {
 	m := &contactModel{Name: op.Name, Pager: op.Val, Emails: []string{}, Slack: []string{}, Webhook: []string{}}
-	b := map[string]interface{}{"contact_name": op.Name, "pager_duty": op.Val}
+	// like the UI, every request carries the complete contact: empty lists are sent as empty lists
+	b := map[string]interface{}{"contact_name": op.Name, "pager_duty": op.Val, "slack": []interface{}{}, "webhook": []interface{}{}}
 	if id != "" {
 		b["contact_id"] = id
 	}
@@ -261,14 +270,25 @@ func alertBodyOf(op *storeOp, contactID string, id string) (map[string]interface
 	return b, m
 }
 
-// quiesce waits for the evaluation a create/update handler starts immediately and removes the cron job, so that
-// no background evaluation runs while the store is exercised.
-func (s *alertStore) quiesce(d *storeDriver, id string) error {
+// quiesce waits for the evaluation a create/update handler starts immediately (it adds one history row) and
+// removes the cron job, so that no background evaluation runs while the store is exercised.
+func (s *alertStore) quiesce(d *storeDriver, id string, minRows int) error {
 	var er evalResult
-	if err := d.c.Call(&sut.Req{Op: "c20.quiesce", Name: id}, &er); err != nil {
+	if err := d.c.Call(&sut.Req{Op: "c20.quiesce", Name: id, Ints: map[string]int64{"min": int64(minRows)}}, &er); err != nil {
 		return d.wrap(err)
 	}
+	if er.TimedOut {
+		d.o.Class("alert_background_evaluation_wrote_no_row")
+	}
 	return nil
+}
+
+func (s *alertStore) historyRows(d *storeDriver, id string) int {
+	var er evalResult
+	if err := d.c.Call(&sut.Req{Op: "c20.historyCount", Name: id}, &er); err != nil {
+		return 0
+	}
+	return er.Rows
 }
 
 func (s *alertStore) apply(d *storeDriver, op *storeOp) error {
@@ -360,12 +380,13 @@ func (s *alertStore) apply(d *storeDriver, op *storeOp) error {
 			}
 			s.prepared[t] = true
 		}
-		cid, _, _ := pickRef(s.contactIDs, t, op.Ref2, false)
+		cid := s.contactFor(t, op.Ref2)
 		before, err := s.listAlerts(d, t)
 		if err != nil {
 			return err
 		}
 		body, m := alertBodyOf(op, cid, "")
+		s.noteLabels(m)
 		r, err := d.callJSON("alert.create", t, body, nil)
 		if err != nil {
 			return err
@@ -388,16 +409,24 @@ func (s *alertStore) apply(d *storeDriver, op *storeOp) error {
 			s.alerts[newIDs[0]] = m
 			s.alertIDs = append(s.alertIDs, objRef{newIDs[0], t})
 			d.o.Class("alert_created")
-			if err := s.quiesce(d, newIDs[0]); err != nil {
+			if err := s.quiesce(d, newIDs[0], 1); err != nil {
 				return err
 			}
 		} else {
 			d.o.Class("alert_create_rejected")
+			if os.Getenv("C20_DEBUG") != "" {
+				fmt.Fprintf(os.Stderr, "ALERT-REJECT %s\n", r)
+			}
 		}
 	case "alert.update":
 		id, _, _ := pickRef(s.alertIDs, t, op.Ref, false)
-		cid, _, _ := pickRef(s.contactIDs, t, op.Ref2, false)
+		cid := s.contactFor(t, op.Ref2)
 		body, m := alertBodyOf(op, cid, id)
+		s.noteLabels(m)
+		rowsBefore := 0
+		if s.alerts[id] != nil {
+			rowsBefore = s.historyRows(d, id)
+		}
 		r, err := d.callJSON("alert.update", t, body, nil)
 		if err != nil {
 			return err
@@ -414,7 +443,7 @@ func (s *alertStore) apply(d *storeDriver, op *storeOp) error {
 			m.Org = old.Org
 			s.alerts[id] = m
 			d.o.Class("alert_updated")
-			if err := s.quiesce(d, id); err != nil {
+			if err := s.quiesce(d, id, rowsBefore+2); err != nil {
 				return err
 			}
 		} else if s.alerts[id] != nil {
@@ -439,6 +468,60 @@ func (s *alertStore) apply(d *storeDriver, op *storeOp) error {
 	return nil
 }
 
+// contactFor resolves the contact reference of an alert: a contact point of the tenant, else of any tenant
+// (alerts are not restricted to contact points of their tenant).
+func (s *alertStore) contactFor(t int64, ref int) string {
+	if id, _, ok := pickRef(s.contactIDs, t, ref, false); ok {
+		return id
+	}
+	id, _, _ := pickRef(s.contactIDs, t, ref, true)
+	return id
+}
+
+func (s *alertStore) noteLabels(m *alertStoreModel) {
+	for k, v := range m.Labels {
+		if s.labelVals[k] == nil {
+			s.labelVals[k] = map[string]bool{}
+		}
+		s.labelVals[k][v] = true
+	}
+}
+
+// sameAlert compares a read alert with the model. Known finding C20-alert-label-values-shared: label values are
+// stored once per label name for the whole database; when a label name has been written with two different values
+// in the case, the value read back is tolerated (the label names are still compared).
+func (s *alertStore) sameAlert(d *storeDriver, got, want *alertStoreModel) bool {
+	if canon(got) == canon(want) {
+		return true
+	}
+	if !pt.KnownFindingOpen("C20-alert-label-values-shared") {
+		return false
+	}
+	g, w := *got, *want
+	g.Labels, w.Labels = map[string]string{}, map[string]string{}
+	tolerated := false
+	for k, v := range got.Labels {
+		if len(s.labelVals[k]) >= 2 {
+			v, tolerated = "*", true
+		}
+		g.Labels[k] = v
+	}
+	for k, v := range want.Labels {
+		if len(s.labelVals[k]) >= 2 {
+			v = "*"
+		}
+		w.Labels[k] = v
+	}
+	if canon(&g) == canon(&w) {
+		if tolerated && !s.knownNoted {
+			s.knownNoted = true
+			d.o.Known("C20-alert-label-values-shared")
+		}
+		return true
+	}
+	return false
+}
+
 func (s *alertStore) verify(d *storeDriver) error {
 	for _, t := range tenants {
 		cl, err := s.listContacts(d, t)
@@ -454,7 +537,7 @@ func (s *alertStore) verify(d *storeDriver) error {
 				return d.violation("tenant %d: contact point %s (%s) is missing from the list", t, id, short(c.Name))
 			}
 			if canon(got.model()) != canon(c) {
-				return d.violation("tenant %d: contact point %s reads %.600s, last written %.600s", t, id, canon(got.model()), canon(c))
+				return d.violation("tenant %d: contact point %s reads %.600s, last written %.600s", t, id, brief(got.model()), brief(c))
 			}
 		}
 		for id, got := range cl {
@@ -474,8 +557,8 @@ func (s *alertStore) verify(d *storeDriver) error {
 			if got == nil {
 				return d.violation("tenant %d: alert %s (%s) is missing from the list", t, id, short(a.Name))
 			}
-			if canon(got.model()) != canon(a) {
-				return d.violation("tenant %d: alert %s reads %.700s, last written %.700s", t, id, canon(got.model()), canon(a))
+			if !s.sameAlert(d, got.model(), a) {
+				return d.violation("tenant %d: alert %s reads %.700s, last written %.700s", t, id, brief(got.model()), brief(a))
 			}
 			r, err := d.call("alert.get", t, nil, map[string]string{"uv.alertID": id})
 			if err != nil {
@@ -487,8 +570,8 @@ func (s *alertStore) verify(d *storeDriver) error {
 			if !r.OK() || r.JSON(&one) != nil || one.Alert == nil {
 				return d.violation("tenant %d: reading alert %s failed: %s", t, id, r)
 			}
-			if canon(one.Alert.model()) != canon(a) {
-				return d.violation("tenant %d: alert %s reads (by id) %.700s, last written %.700s", t, id, canon(one.Alert.model()), canon(a))
+			if !s.sameAlert(d, one.Alert.model(), a) {
+				return d.violation("tenant %d: alert %s reads (by id) %.700s, last written %.700s", t, id, brief(one.Alert.model()), brief(a))
 			}
 		}
 		for id, got := range al {
